@@ -233,6 +233,36 @@ def run(tier):
                     rep.violation("block_name:conv%d:parts" % conv, "P_parts_invert_block_name", det)
                 if skip and nlay >= skip and any(l.name == geo.layerlist[0].name for l in geo.layerlist[1:]):
                     rep.violation("add_layers:conv%d:surface-layer-name-reused" % conv, "P_generated_names_distinct", det)
+    # custom alphabets, incl. mixed-case sets folded by the case option (the folded set has repeats to be removed)
+    for chars, case in (("aAbBcCdD", "l"), ("aAbBcCdD", "u"), ("xyzXYZ", "l"), ("QWERTY", None), ("abcde", "u"), ("aAbBcCdD", None)):
+        for conv in (0, 3):
+            for ncols, nlay in ((15, 3), (40, 2), (3, 9)):
+                det = {"convention": conv, "columns": ncols, "layers": nlay, "chars": chars, "case": case}
+                rep.case(("geo-chars", conv, ncols, nlay, chars, case))
+                folded = chars if case is None else (chars.lower() if case == "l" else chars.upper())
+                base = len("".join(sorted(set(folded), key=folded.index)))
+                capcol = base + base ** 2 + base ** 3
+                caplay = base + base ** 2 if conv == 3 else 99
+                expect_err = 2 * (ncols + 1) > capcol or nlay > caplay
+                try:
+                    with core.watchdog(120), core.quiet():
+                        geo = m.mulgrid().rectangular([10.0] * ncols, [10.0], [1.0] * nlay, convention=conv, atmos_type=1,
+                                                      chars=chars, case=case)
+                    raised = False
+                except Err:
+                    raised = True
+                except Exception as ex:
+                    det["error"] = repr(ex)
+                    rep.violation("rectangular:chars:raises-other", "P_naming_error_explicit", det)
+                    continue
+                if raised != expect_err:
+                    rep.violation("rectangular:chars:%s" % ("no-error" if expect_err else "spurious-error"), "P_error_exactly_above_capacity", det)
+                elif not raised:
+                    names = geo.block_name_list
+                    if geo.num_columns != ncols or geo.num_nodes != 2 * (ncols + 1) or geo.num_layers != nlay + 1 \
+                            or len(set(names)) != len(names) or len(names) != ncols * (nlay + 1):
+                        det.update(columns_built=geo.num_columns, nodes_built=geo.num_nodes, blocks=len(set(names)))
+                        rep.violation("rectangular:chars:duplicate-names", "P_generated_names_distinct", det)
     rep.rule = ("part 2: all 3125 five-character class strings, concretised; part 1: every number TLC enumerates for each "
                 "(alphabet, spaces, length) the conventions use, plus a window around every capacity limit, through "
                 "column/node/layer_name_from_number with left/right justification; rectangular geometries at capacity +-1")
